@@ -189,6 +189,7 @@ var (
 	caseStart time.Time
 	caseOn    bool
 	dogOnce   sync.Once
+	horizon   = 60 * time.Second
 )
 
 // BeginCase records the case a worker is about to run in <out>.cur and arms a watchdog:
@@ -203,11 +204,10 @@ func BeginCase(curFile string, desc any) {
 	caseMu.Unlock()
 	dogOnce.Do(func() {
 		go func() {
-			horizon := 60 * time.Second
 			for {
 				time.Sleep(50 * time.Millisecond)
 				caseMu.Lock()
-				on, st := caseOn, caseStart
+				on, st, horizon := caseOn, caseStart, horizon
 				caseMu.Unlock()
 				if !on {
 					continue
@@ -230,3 +230,85 @@ func EndCase() {
 		os.Remove(f)
 	}
 }
+
+// SkipSet parses -skip.
+func SkipSet() map[int64]bool {
+	m := map[int64]bool{}
+	for _, f := range strings.Split(*ev.FlagSkip, ",") {
+		if n, err := strconv.ParseInt(f, 10, 64); err == nil {
+			m[n] = true
+		}
+	}
+	return m
+}
+
+// RunShardsSkipping runs n workers; a worker that dies while a case is armed
+// (BeginCase) is restarted with that case's index added to its -skip list, so the rest
+// of its share is still explored. onCrash receives the recorded case description and
+// the tail of the worker's output. At most maxCrashes restarts per shard.
+func RunShardsSkipping(r *ev.Report, n, parallel int, dir string, maxCrashes int, indexOf func(cur []byte) int64, onCrash func(cur []byte, output string)) {
+	self, err := os.Executable()
+	if err != nil {
+		ev.Fatal("os.Executable: %v", err)
+	}
+	if parallel <= 0 {
+		parallel = Workers()
+	}
+	sem := make(chan struct{}, parallel)
+	var wg sync.WaitGroup
+	var mu sync.Mutex
+	errs := make([]error, n)
+	for i := 0; i < n; i++ {
+		wg.Add(1)
+		go func(i int) {
+			defer wg.Done()
+			sem <- struct{}{}
+			defer func() { <-sem }()
+			var skip []string
+			for attempt := 0; ; attempt++ {
+				out := filepath.Join(dir, fmt.Sprintf("s%d.json", i))
+				os.Remove(out + ".cur")
+				args := []string{"-tier", r.Tier, "-shard", fmt.Sprintf("%d/%d", i, n), "-out", out, "-skip", strings.Join(skip, ",")}
+				cmd := exec.Command(self, args...)
+				cmd.Env = append(os.Environ(), "GOMAXPROCS=2")
+				b, err := cmd.CombinedOutput()
+				if err == nil {
+					errs[i] = r.MergeShard(out)
+					return
+				}
+				cur, rerr := os.ReadFile(out + ".cur")
+				if rerr != nil {
+					errs[i] = fmt.Errorf("shard %d: %v\n%s", i, err, tailOf(string(b), 2000))
+					return
+				}
+				mu.Lock()
+				onCrash(cur, tailOf(string(b), 1500))
+				mu.Unlock()
+				if attempt >= maxCrashes {
+					mu.Lock()
+					r.Exhaustive = false
+					r.Note("shard %d abandoned after %d crashing cases", i, attempt+1)
+					mu.Unlock()
+					return
+				}
+				skip = append(skip, strconv.FormatInt(indexOf(cur), 10))
+			}
+		}(i)
+	}
+	wg.Wait()
+	for _, e := range errs {
+		if e != nil {
+			ev.Fatal("worker failed: %v", e)
+		}
+	}
+}
+
+func tailOf(s string, n int) string {
+	if len(s) > n {
+		return s[len(s)-n:]
+	}
+	return s
+}
+
+// SetHorizon changes the watchdog's per-case wall-clock horizon (default 60 s).
+func SetHorizon(d time.Duration) { caseMu.Lock(); horizon = d; caseMu.Unlock() }
